@@ -45,7 +45,7 @@ def _fn_ranges(bu):
         if o["kind"] == "repo":
             out[ln] = o["item"]
         elif o["kind"] == "spec" and "::" in o["label"]:
-            out[ln] = o["label"].split("::")[0]
+            out[ln] = o["label"].rsplit("::", 1)[0]
     return out, lm
 
 
@@ -100,13 +100,28 @@ def run_verus_unit(repo, unit_name, variant, workdir, log, only_fns=None):
             res["functions"].append({"struct": it.name, "repo": "%s:%d-%d" % (it.rel, it.first_line, it.last_line),
                                      "rewrites": it.rule_hits})
     # obligations from the AIR log: labelled asserts per function definition query
-    obl = {k: v for k, v in r["air_obligations"].items()}
+    # name verus functions by the item they were generated from (source line of the definition), so that
+    # trait impls (`impl&%3::write`, `alloc::boxed::Box::write`) are attributed to the extracted item's label
+    renamed = {}
+    for k in r["air_obligations"]:
+        ln = r.get("air_locs", {}).get(k)
+        it_name = fnmap.get(ln) if ln else None
+        base = k.split("@")[0]
+        renamed[k] = it_name if it_name and lm.get(ln, {}).get("kind") == "repo" else base.split("::", 1)[-1]
+    obl = {}
+    for k, v in r["air_obligations"].items():
+        obl[renamed[k]] = obl.get(renamed[k], 0) + v
+    labs = {}
+    for k, v in r["air_labels"].items():
+        labs.setdefault(renamed.get(k, k), {}).update(v)
+    r["air_labels"] = labs
+    obl_all = dict(obl)
     res["obligations_by_fn"] = obl
     res["obligation_labels"] = r["air_labels"]
     all_fn_names = set(it.qualname() for it in bu.items if hasattr(it, "body_src"))
     if only_fns is not None:
         # count only the obligations of the listed functions and of items that are not extracted functions (lemmas)
-        obl = {k: v for k, v in obl.items() if k.split("::")[-1] in only_fns or k.split("::")[-1] not in all_fn_names}
+        obl = {k: v for k, v in obl.items() if k in only_fns or k not in all_fn_names}
         res["obligations_by_fn"] = obl
         res["functions"] = [f for f in res["functions"] if f.get("struct") or f.get("fn") in only_fns]
     total = sum(obl.values())
@@ -119,7 +134,7 @@ def run_verus_unit(repo, unit_name, variant, workdir, log, only_fns=None):
         expected = getattr(unit, "EXPECT_VERIFIED", None)
         if expected is None:
             expected = [it.qualname() for it in bu.items if hasattr(it, "body_src")]
-        missing = [e for e in expected if not any(k.split("::")[-1] == e for k in fr)]
+        missing = [e for e in expected if e not in obl_all]
         if problems:
             res["status"] = "undecided"
             res["undecided"].extend(problems)
